@@ -437,6 +437,14 @@ def held_views(F, mon):
         "t[('a','o')]": (lambda t: t[("a", "o")], lambda g: [g["a"], g["o"]]),
         "t[0:2, 'a']": (lambda t: t[0:2, "a"], lambda g: g["a"][0:2]),
         "t[1, :]": (lambda t: t[1, :], lambda g: rows_of(g)[1]),
+        "t[:, 'a']": (lambda t: t[:, "a"], lambda g: g["a"]),
+        "t[:, 0]": (lambda t: t[:, 0], lambda g: g["a"]),
+        "t['o', :]": (lambda t: t["o", :], lambda g: g["o"]),
+        "t[0:, 'a']": (lambda t: t[0:, "a"], lambda g: g["a"]),
+        "t[:, ('a', 'b')]": (lambda t: t[:, ("a", "b")], lambda g: [g["a"], g["b"]]),
+        "t[:, 0:2]": (lambda t: t[:, 0:2], lambda g: [g["a"], g["b"]]),
+        "t[:]": (lambda t: t[:], lambda g: [g[k] for k in g]),
+        "t[:, :]": (lambda t: t[:, :], lambda g: [g[k] for k in g]),
         "t.copy()": (lambda t: t.copy(), lambda g: [g[k] for k in g]),
         "t.T": (lambda t: t.T, lambda g: rows_of(g)),
         "t >> vec": (lambda t: t >> Vector([7, 8, 9], name="z"), lambda g: [g[k] for k in g] + [[7, 8, 9]]),
@@ -635,6 +643,21 @@ def odd_operands(F, mon):
             ex += 1
             if st == "ok" and isinstance(r, Vector) and not views_equal(list(r), exp):
                 F.add("form_elementwise", {"values": repr(vals), "scalar": repr(x), "op": op.__name__, "written": side}, list(r), exp)
+    # operators whose Python scalar form ACCEPTS None ('%s' % None): None still propagates, on either side, in every operand form
+    fmt = ["a=%s", "b=%s", "c=%s"]
+    for right, exp in (([1, None, 3], ["a=1", None, "c=3"]), ([None, None, None], [None, None, None]), (["x", "y", None], ["a=x", "b=y", None])):
+        for fname, mk in (("Vector", lambda: Vector(list(right))), ("list", lambda: list(right)), ("tuple", lambda: tuple(right))):
+            st, r, e = attempt(lambda: Vector(list(fmt)) % mk())
+            ex += 1
+            if st != "ok" or not isinstance(r, Vector) or list(r) != exp:
+                F.add("form_none_propagates", {"left": repr(fmt), "op": "%", "right": repr(right), "right form": fname},
+                      list(r) if st == "ok" and isinstance(r, Vector) else repr(e or r), exp)
+            elif any(x is None for x in exp) and r.schema() is not None and not r.schema().nullable:
+                F.add("form_none_propagates", {"left": repr(fmt), "op": "%", "right": repr(right), "right form": fname}, str(r.schema()), "a nullable dtype")
+    st, r, e = attempt(lambda: Vector(["a=%s", None, "c=%s"]) % Vector([1, 2, None]))
+    ex += 1
+    if st != "ok" or list(r) != ["a=1", None, None]:
+        F.add("form_none_propagates", {"left": "['a=%s', None, 'c=%s']", "op": "%", "right": "[1, 2, None]"}, list(r) if st == "ok" else repr(e), ["a=1", None, None])
     for vals in ([1, None, 3], ["a", None], [None, None], [1.5, 2.5]):
         for opn, op in (("eq", operator.eq), ("ne", operator.ne)):
             st, r, e = attempt(lambda: op(Vector(list(vals)), None))
